@@ -781,4 +781,91 @@ def mon_c09(cfg, steps):
     return out
 
 
-MONITORS = {"C04": mon_c04, "C15": mon_c15, "C03": mon_c03, "C08": mon_c08, "C10": mon_c10, "C11": mon_c11, "C12": mon_c12, "C05": mon_c05, "C06": mon_c06, "C17": mon_c17, "C13": mon_c13, "C14": mon_c14, "C09": mon_c09}
+# ---------------- C07 ----------------
+def mon_c07(cfg, steps):
+    """reconstructs the chain's packet table from the trace (transfers + submission replies + relayer outcomes)
+    and checks the contract's records and recoveries against it"""
+    out = []
+    chain = {}        # seq -> dict(denom, amount, receiver, state, resent)
+    forced = False    # an admin-forced recovery of in-flight packets happened: tracking may legitimately diverge
+    by_tx = {}
+    for s in steps:
+        if s.tx:
+            by_tx.setdefault(s.tx, []).append(s)
+    for s in steps:
+        t = s.optoks
+        if t[0] == "reply" and t[2] != "ok" and s.res == "ok":
+            out.append({"step": s.idx, "what": "reply to a failed transfer submission returned ok (the operation is not rolled back)"})
+        if s.aborted:
+            continue
+        # new packets: transfers of a committed transaction, matched to their submission replies by sub-message id
+        if t[0] == "exec" and s.res == "ok":
+            replies = {int(x.optoks[1]): int(x.optoks[3]) for x in by_tx.get(s.tx, []) if x.optoks[0] == "reply" and x.optoks[2] == "ok" and x.res == "ok"}
+            xs = [m for m in s.msgs if m["facet"] == "msg:transfer"]
+            for m in xs:
+                if not m["reply"]:
+                    out.append({"step": s.idx, "what": "IBC transfer emitted without asking for a reply (it would go untracked)"})
+                if "ibc_callback" not in m.get("memo", ""):
+                    out.append({"step": s.idx, "what": "IBC transfer without the callback memo"})
+                if m["id"] in replies:
+                    chain[replies[m["id"]]] = dict(denom=m["denom"], amount=m["amount"], receiver=m["receiver"], state="flight", resent=False)
+        if t[0] == "sudo" and s.note and s.note[0] == "relay":
+            seq = int(s.note[1]); oc = s.note[2]
+            if seq in chain:
+                chain[seq]["state"] = "delivered" if oc == "ok" else "refunded:" + oc
+        if t[0] == "sudo" and s.note and s.note[0] == "stray" and s.pre is not None and s.st is not None and s.res == "ok":
+            if s.st != s.pre:
+                out.append({"step": s.idx, "what": "a stray %s changed the store" % " ".join(t[1:])})
+        st = s.st if s.st is not None else None
+        if t[0] == "exec" and t[5] == "recover" and s.res == "ok" and s.pre is not None and st is not None:
+            who = unhex(t[3]).decode("utf-8", "replace"); pre = s.pre
+            removed = [pre["pkts"][k] for k in sorted(pre["pkts"]) if k not in st["pkts"]]
+            xs = [m for m in s.msgs if m["facet"] == "msg:transfer"]
+            rcv = unhex(t[8]).decode("utf-8", "replace") if t[8] != "-" else pre["native"]["staker"]
+            if len(xs) != 1 or len(s.msgs) != 1:
+                out.append({"step": s.idx, "what": "recover emitted %d messages" % len(s.msgs)}); continue
+            m = xs[0]
+            if not removed:
+                out.append({"step": s.idx, "what": "recover re-sent %d without removing any record" % m["amount"]}); continue
+            tot = sum(p["amount"] for p in removed)
+            if m["amount"] != tot or any(p["denom"] != m["denom"] for p in removed) or any(p["receiver"] != m["receiver"] for p in removed) or m["receiver"] != rcv:
+                out.append({"step": s.idx, "what": "recover re-sent %d %s to %s; the removed records are %r (receiver requested: %s)" % (m["amount"], m["denom"], m["receiver"], [(p["seq"], p["amount"], p["denom"], p["receiver"], p["status"]) for p in removed], rcv)})
+            if t[7] == "-":
+                if any(p["status"] == "sent" for p in removed):
+                    out.append({"step": s.idx, "what": "a permissionless recovery re-sent packets still in flight: %r" % [p["seq"] for p in removed if p["status"] == "sent"]})
+                cand = [pre["pkts"][k] for k in sorted(pre["pkts"]) if pre["pkts"][k]["receiver"] == rcv and pre["pkts"][k]["status"] in ("ack_failure", "timed_out")]
+                exp = cand[:10] if t[6] == "1" else cand
+                if [p["seq"] for p in removed] != [p["seq"] for p in exp]:
+                    out.append({"step": s.idx, "what": "permissionless recovery for %s took packets %r, the refundable ones are %r (paginated=%s)" % (rcv, [p["seq"] for p in removed], [p["seq"] for p in exp], t[6])})
+            else:
+                if who != pre["admin"]:
+                    out.append({"step": s.idx, "what": "forced recovery by non-admin %s" % who})
+                if any(p["status"] == "sent" for p in removed):
+                    forced = True
+            for p in removed:
+                c = chain.get(p["seq"])
+                if c is not None:
+                    if c["resent"]:
+                        out.append({"step": s.idx, "what": "packet %d re-sent twice" % p["seq"]})
+                    c["resent"] = True
+        # tracking, between transactions
+        if st is not None and not s.intx or (st is not None and s is by_tx.get(s.tx, [None])[-1]):
+            if forced:
+                continue
+            for seq, c in chain.items():
+                rec = st["pkts"].get(seq)
+                if c["state"] == "flight" and not c["resent"]:
+                    if rec is None or rec["status"] != "sent" or (rec["denom"], rec["amount"], rec["receiver"]) != (c["denom"], c["amount"], c["receiver"]):
+                        out.append({"step": s.idx, "what": "packet %d (%d %s to %s) is in flight but recorded as %r" % (seq, c["amount"], c["denom"], c["receiver"], rec)})
+                elif c["state"].startswith("refunded") and not c["resent"]:
+                    want = "ack_failure" if c["state"].endswith("err") else "timed_out"
+                    if rec is None or rec["status"] != want or rec["amount"] != c["amount"]:
+                        out.append({"step": s.idx, "what": "packet %d was refunded (%s) but is recorded as %r" % (seq, c["state"], rec)})
+                elif c["state"] == "delivered" and rec is not None and not c["resent"]:
+                    out.append({"step": s.idx, "what": "packet %d was delivered but is still recorded (%s)" % (seq, rec["status"])})
+            if st["waits"]:
+                out.append({"step": s.idx, "what": "a submission is still awaiting its reply between transactions: %r" % list(st["waits"])})
+    return out
+
+
+MONITORS = {"C04": mon_c04, "C15": mon_c15, "C03": mon_c03, "C08": mon_c08, "C10": mon_c10, "C11": mon_c11, "C12": mon_c12, "C05": mon_c05, "C06": mon_c06, "C17": mon_c17, "C13": mon_c13, "C14": mon_c14, "C09": mon_c09, "C07": mon_c07}
